@@ -321,6 +321,9 @@ def run(w, rep, tier):
     # independence of log from the representation holding X needs SO3Mrp.from_Quat to keep the rotation for both signs of q0
     from .c07 import check_pairs
     check_pairs(w, rep, tier, only={("SO3Quat", "SO3Mrp")}, RP="C03.flow", RA="C03.API")
+    # Euler log = SO3Dcm.log(SO3Dcm.from_Euler(X)) for EVERY Euler group the class builds: the space-fixed type too
+    from .c07 import check_space_fixed
+    check_space_fixed(w, rep, tier, RP="C03.flow", RA="C03.API", dsts=("SO3Dcm",))
     rep.floor("C03.API", 12)
     rep.floor("C03.form", 5)
     rep.undecided_clause("exp(log X) = X and log(exp x) = x for the SO(3) parameterisations (composition of trigonometric and inverse trigonometric maps)")
